@@ -315,4 +315,134 @@ theorem readAll_go : ∀ (reads : List Read) (a : A) (s sQ : State) (E : List Ev
 
 end loop
 
+/-! ## the preamble of a round -/
+
+/-- clock and failure environment -/
+theorem sim_env {cfg : Cfg} {a : A} {s : State} (hs : Sim cfg a s) (r : Round) :
+    Sim cfg { a with now := a.now + r.dt,
+                     fail := (r.failSet.filter (·.1 ≤ a.nAccepted)).foldl
+                       (fun fl (p : Nat × Option FailMode) => setFail fl p.1 p.2) a.fail } (envStep s r) := by
+  unfold envStep
+  exact ⟨hs.uids, hs.nacc, by show _ = _; rw [hs.nacc, hs.fail], hs.buf, hs.live, hs.mods, hs.w, hs.logIn, hs.logOut,
+    hs.logConn, hs.logNodup, hs.logBound⟩
+
+/-- the connections the Spec considers alive are the table entries -/
+theorem liveList_contains {cfg : Cfg} {a : A} {s : State} (hs : Sim cfg a s) (u : Nat) (hu : u ≠ 0) :
+    ((a.mods.filter (·.alive)).map (·.uid)).contains u = (s.find u).isSome := by
+  have hnd := uids_nodup hs.uids
+  have h1 : ((a.mods.filter (·.alive)).map (·.uid)).contains u = true ↔ (a.live u).isSome = true := by
+    rw [List.contains_iff_mem, List.mem_map]
+    constructor
+    · rintro ⟨m, hm, rfl⟩
+      obtain ⟨hm1, hm2⟩ := List.mem_filter.mp hm
+      rw [live_of_mem hnd hm1 hm2]; rfl
+    · intro h
+      obtain ⟨m, hm⟩ := Option.isSome_iff_exists.mp h
+      obtain ⟨hg, hal⟩ := Spec.live_some.mp hm
+      exact ⟨m, List.mem_filter.mpr ⟨Spec.get_mem hg, hal⟩, Spec.get_uid hg⟩
+  have h2 := hs.live u hu
+  cases hc : ((a.mods.filter (·.alive)).map (·.uid)).contains u with
+  | true => exact (h2.mp (h1.mp hc)).symm
+  | false =>
+    cases hf : (s.find u).isSome with
+    | false => rfl
+    | true => rw [h1.mpr (h2.mpr hf)] at hc; cases hc
+
+theorem aget_none_of_fresh {a : A} {n : Nat} (h : a.mods.map (·.uid) = (List.range n).map (· + 1)) (u : Nat) (hu : n < u) :
+    a.get u = none := by
+  cases hg : a.get u with
+  | none => rfl
+  | some m =>
+    have : m.uid ∈ a.mods.map (·.uid) := List.mem_map.mpr ⟨m, Spec.get_mem hg, rfl⟩
+    rw [h, Spec.get_uid hg] at this
+    obtain ⟨k, hk, hk'⟩ := List.mem_map.mp this
+    have := List.mem_range.mp hk
+    omega
+
+/-- `accept()`: a fresh entry on both sides (and the writable set sampled afterwards) -/
+theorem sim_accept {cfg : Cfg} {a : A} {s : State} (hs : Sim cfg a s) (wA wM : List Nat)
+    (hw : ∀ v, (v = a.nAccepted + 1 ∨ (a.live v).isSome) → (v ∈ wA ↔ v ∈ wM)) :
+    Sim cfg { a with nAccepted := a.nAccepted + 1, mods := a.mods ++ [{ uid := a.nAccepted + 1 }], w := wA }
+      { s with nextUid := s.nextUid + 1, mods := s.mods ++ [{ uid := s.nextUid + 1 }], wlist := wM } := by
+  have hn := hs.nacc
+  have hgetA : ∀ v, ({ a with nAccepted := a.nAccepted + 1, mods := a.mods ++ [{ uid := a.nAccepted + 1 }], w := wA } : A).get v =
+      if v = a.nAccepted + 1 then some { uid := a.nAccepted + 1 } else a.get v := by
+    intro v
+    show (a.mods ++ [({ uid := a.nAccepted + 1 } : AMod)]).find? (·.uid == v) = _
+    rw [List.find?_append]
+    by_cases hv : v = a.nAccepted + 1
+    · subst hv
+      have : a.mods.find? (·.uid == a.nAccepted + 1) = none := aget_none_of_fresh hs.uids _ (Nat.lt_succ_self _)
+      simp [this]
+    · simp only [hv, if_false]
+      cases hh : a.mods.find? (·.uid == v) with
+      | some x => unfold Spec.A.get; rw [hh]; rfl
+      | none =>
+        unfold Spec.A.get; rw [hh]
+        have : ((a.nAccepted + 1) == v) = false := by simpa using fun e => hv e.symm
+        simp [this]
+  have hfindS : ∀ v, ({ s with nextUid := s.nextUid + 1, mods := s.mods ++ [{ uid := s.nextUid + 1 }], wlist := wM } : State).find v =
+      if v = s.nextUid + 1 then some { uid := s.nextUid + 1 } else s.find v := by
+    intro v
+    show (s.mods ++ [({ uid := s.nextUid + 1 } : Module)]).find? (·.uid == v) = _
+    rw [List.find?_append]
+    by_cases hv : v = s.nextUid + 1
+    · subst hv
+      have : s.mods.find? (·.uid == s.nextUid + 1) = none := sim_fresh hs _ (Nat.lt_succ_self _)
+      simp [this]
+    · simp only [hv, if_false]
+      cases hh : s.mods.find? (·.uid == v) with
+      | some x => unfold State.find; rw [hh]; rfl
+      | none =>
+        unfold State.find; rw [hh]
+        have : ((s.nextUid + 1) == v) = false := by simpa using fun e => hv e.symm
+        simp [this]
+  have hliveA : ∀ v, ({ a with nAccepted := a.nAccepted + 1, mods := a.mods ++ [{ uid := a.nAccepted + 1 }], w := wA } : A).live v =
+      if v = a.nAccepted + 1 then some { uid := a.nAccepted + 1 } else a.live v := by
+    intro v
+    unfold Spec.A.live
+    rw [hgetA]
+    by_cases hv : v = a.nAccepted + 1
+    · simp only [hv, if_true]
+    · simp only [hv, if_false]
+  refine ⟨?_, by show a.nAccepted + 1 = s.nextUid + 1; rw [hn], hs.fail, hs.buf, fun v hv => ?_, fun v am m h1 h2 => ?_,
+    fun v hl => ?_, fun v m h1 h2 => ?_, fun v m h1 h2 => ?_, fun v m h1 h2 => ?_, hs.logNodup,
+    fun u hu => Nat.le_succ_of_le (hs.logBound u hu)⟩
+  · show (a.mods ++ [({ uid := a.nAccepted + 1 } : AMod)]).map (·.uid) = (List.range (a.nAccepted + 1)).map (· + 1)
+    rw [List.map_append, hs.uids, List.range_succ, List.map_append]; rfl
+  · rw [hliveA, hfindS, hn]; split
+    · simp
+    · exact hs.live v hv
+  · rw [hliveA] at h1; rw [hfindS] at h2; rw [hn] at h1
+    split at h1
+    · rename_i hv; simp only [hv, if_true] at h2
+      cases h1; cases h2
+      exact ⟨rfl, rfl, rfl, rfl, rfl, rfl, rfl, rfl, by simp⟩
+    · rename_i hv; simp only [hv, if_false] at h2
+      exact hs.mods v am m h1 h2
+  · rw [hliveA] at hl
+    show v ∈ wA ↔ v ∈ wM
+    by_cases hv : v = a.nAccepted + 1
+    · exact hw v (Or.inl hv)
+    · simp only [hv, if_false] at hl; exact hw v (Or.inr hl)
+  · rw [hfindS] at h1
+    split at h1
+    · cases h1; cases h2
+    · exact hs.logIn v m h1 h2
+  · rw [hfindS] at h2
+    split at h2
+    · rename_i hv
+      have := hs.logBound v h1
+      omega
+    · exact hs.logOut v m h1 h2
+  · rw [hfindS] at h1
+    split at h1
+    · cases h1; cases h2
+    · exact hs.logConn v m h1 h2
+
+/-- the writable set is sampled again -/
+theorem sim_setW {cfg : Cfg} {a : A} {s : State} (hs : Sim cfg a s) (wA wM : List Nat)
+    (hw : ∀ v, (a.live v).isSome → (v ∈ wA ↔ v ∈ wM)) : Sim cfg { a with w := wA } { s with wlist := wM } :=
+  ⟨hs.uids, hs.nacc, hs.fail, hs.buf, hs.live, hs.mods, hw, hs.logIn, hs.logOut, hs.logConn, hs.logNodup, hs.logBound⟩
+
 end Pyrtma.Mgr
